@@ -171,9 +171,9 @@ func (e *Engine) step(fr *Frame, st *State, instr ssa.Instruction) {
 		hn, vn, ln := e.mapHeaps(mt)
 		ks, vs := e.sortOf(mt.Key()), e.sortOf(mt.Elem())
 		hh := e.heap(st, hn, arraySort(sRef, arraySort(ks, sBool)))
-		e.recStore(hn, r)
-		e.recStore(vn, r)
-		e.recStore(ln, r)
+		e.recStore(st, hn, r)
+		e.recStore(st, vn, r)
+		e.recStore(st, ln, r)
 		e.setHeap(st, hn, tStore(hh, r, T{fmt.Sprintf("((as const %s) false)", arraySort(ks, sBool)), arraySort(ks, sBool)}))
 		vh := e.heap(st, vn, arraySort(sRef, arraySort(ks, vs)))
 		e.setHeap(st, vn, tStore(vh, r, T{fmt.Sprintf("((as const %s) %s)", arraySort(ks, vs), e.zero(mt.Elem()).S), arraySort(ks, vs)}))
@@ -191,9 +191,9 @@ func (e *Engine) step(fr *Frame, st *State, instr ssa.Instruction) {
 		hh := e.heap(st, hn, arraySort(sRef, arraySort(ks, sBool)))
 		had := tSel(tSel(hh, m), k)
 		lh := e.heap(st, ln, arraySort(sRef, sInt))
-		e.recStore(hn, m)
-		e.recStore(vn, m)
-		e.recStore(ln, m)
+		e.recStore(st, hn, m)
+		e.recStore(st, vn, m)
+		e.recStore(st, ln, m)
 		e.setHeap(st, ln, tStore(lh, m, tIte(had, tSel(lh, m), T{fmt.Sprintf("(+ %s 1)", tSel(lh, m).S), sInt})))
 		e.setHeap(st, hn, tStore(hh, m, tStore(tSel(hh, m), k, tTrue)))
 		vh := e.heap(st, vn, arraySort(sRef, arraySort(ks, vs)))
@@ -277,7 +277,7 @@ func (e *Engine) zeroElems(st *State, r T, et types.Type) {
 	hn, hs := e.elemHeap(et)
 	h := e.heap(st, hn, hs)
 	inner := arraySort(sInt, e.sortOf(et))
-	e.recStore(hn, r)
+	e.recStore(st, hn, r)
 	e.setHeap(st, hn, tStore(h, r, T{fmt.Sprintf("((as const %s) %s)", inner, e.zero(et).S), inner}))
 }
 
@@ -607,7 +607,11 @@ func (e *Engine) sliceOp(fr *Frame, st *State, x *ssa.Slice) {
 			hi = n
 		}
 		e.oblige(st, "safe-slice", label, T{fmt.Sprintf("(and (<= 0 %s) (<= %s %s) (<= %s %s))", lo.S, lo.S, hi.S, hi.S, n.S), sBool}, x.Pos())
-		fr.vals[x] = e.name(T{fmt.Sprintf("(mk_slice %s %s (- %s %s) (- %s %s))", p.S, lo.S, hi.S, lo.S, n.S, lo.S), sSlice}, "s")
+		if lo.S == "0" {
+			fr.vals[x] = e.name(T{fmt.Sprintf("(mk_slice %s 0 %s %s)", p.S, hi.S, n.S), sSlice}, "s")
+		} else {
+			fr.vals[x] = e.name(T{fmt.Sprintf("(mk_slice %s %s (- %s %s) (- %s %s))", p.S, lo.S, hi.S, lo.S, n.S, lo.S), sSlice}, "s")
+		}
 	default:
 		e.unsupported("Slice on %s", x.X.Type())
 	}
@@ -636,7 +640,7 @@ func (e *Engine) convert(fr *Frame, st *State, x *ssa.Convert) Val {
 		h := e.heap(st, hn, hs)
 		arr := e.fresh(arraySort(sInt, e.sortOf(et)), "bytes")
 		e.assume(st, T{fmt.Sprintf("(forall ((i Int)) (! (=> (and (<= 0 i) (< i (str.len %s))) (= (select %s i) (str.to_code (str.at %s i)))) :pattern ((select %s i))))", tv.S, arr.S, tv.S, arr.S), sBool})
-		e.recStore(hn, r)
+		e.recStore(st, hn, r)
 		e.setHeap(st, hn, tStore(h, r, arr))
 		e.declFun("bytes_str", "(Ref) String")
 		e.assume(st, T{fmt.Sprintf("(= (bytes_str %s) %s)", r.S, tv.S), sBool})
